@@ -141,7 +141,7 @@ pub fn generate(rng: &mut Rng, idx: usize, _tier: Tier) -> CaseOut {
     for (k, b) in r.blocks.iter().enumerate() {
         let content = content_of(&r, k);
         tables.add_block(&b.attrs, content);
-        mix::lua_oracle(&mut tables, &b.attrs, &path, content);
+        mix::lua_oracle(&mut tables, &b.attrs, &path, b.ts.0, content);
         if let Some(p) = &kplans[k] {
             ks.push(keys::intent_coq(p, b, content));
         }
